@@ -46,6 +46,16 @@ def showValue : Nat → St → Value → String
       | some (.err x) => "(e " ++ showValue d st x ++ ")"
       | _ => "(e ?)"
     | .fn _ => "(fn)"
+    | .cfn _ => "(fn)"
+    | .ptr _ => "(ptr)"
+    | .iter r =>
+      match st.heap[r]? with
+      | some (.arrIt ..) => "(other #" ++ hexOfString "array-iterator" ++ ")"
+      | some (.mapIt ..) => "(other #" ++ hexOfString "map-iterator" ++ ")"
+      | some (.listIt 0 ..) => "(other #" ++ hexOfString "string-iterator" ++ ")"
+      | some (.listIt 1 ..) => "(other #" ++ hexOfString "bytes-iterator" ++ ")"
+      | some (.listIt ..) => "u"
+      | _ => "(other #6974657261746f72)"
     | .builtin n => "(bf #" ++ hexOfString n ++ ")"
 
 /-- Read an input value, allocating containers in the heap. -/
